@@ -316,6 +316,16 @@ def r4_dispatch(prog, rep: Report, fam: Family):
                 t = n.args[1]
                 for x in (t.elts if isinstance(t, ast.Tuple) else [t]):
                     isinst.add(src(x))
+        def through_helper(call_, why_) -> bool:
+            """the index comes out of a private helper of the class that was not inlined: not in view"""
+            return "iterates " in why_ and any(isinstance(x, ast.Call) and isinstance(x.func, ast.Attribute) and x.func.attr.startswith("_")
+                                               and isinstance(x.func.value, ast.Name) and x.func.value.id == g.self_name
+                                               for n_ in walk_own(g.node) if isinstance(n_, (ast.For, ast.comprehension, ast.ListComp))
+                                               for x in ast.walk(n_.iter if isinstance(n_, (ast.For, ast.comprehension)) else n_))
+        for call, why in [b_ for b_ in bad if through_helper(*b_)]:
+            rep.unrec("C11.R4", g, "selector:modified", why + " (a helper of the class computes the indexes)", call.lineno)
+        helper_hidden = any(through_helper(*b_) for b_ in bad)
+        bad = [b_ for b_ in bad if not through_helper(*b_)]
         for call, why in bad:
             rep.viol("C11.R4", g, "selector:modified", why, scenario="f[i] / f[a:b] / f[[i, j]] select a different line "
                      "than list(f)[...]", line=call.lineno)
@@ -323,6 +333,10 @@ def r4_dispatch(prog, rep: Report, fam: Family):
                   "int selector forwarded unmodified to the item reader",
                   "no path forwards the plain selector to the item reader under an isinstance(selector, int) dispatch",
                   scenario="f[i] for an int i")
+        if helper_hidden and not slice_mapped:
+            rep.unrec("C11.R4", g, "selector:slice", "the selector is translated by a helper of the class that was not inlined")
+            rep.unrec("C11.R4", g, "selector:iterable", "the selector is translated by a helper of the class that was not inlined")
+            continue
         rep.check("C11.R4", g, "selector:slice", slice_mapped and "slice" in isinst,
                   "slice mapped through range(len(self))[slice] / slice.indices(len(self))",
                   "slice selector is not mapped through range(len(self))[selector] or selector.indices(len(self))",
